@@ -5,7 +5,6 @@ import (
 	"go/constant"
 	"go/token"
 	"go/types"
-	"sort"
 	"strings"
 
 	"godcheck/core"
@@ -1208,32 +1207,8 @@ func c05(r *core.Run) {
 			}
 		}
 	})
-	r.Check("D5/K4/caches-under-their-locks", "optionsCache, structRequiredCache, cacheKeys and defaultCache are read and written only while their mutex is held (writes under the write lock); lock balance on every path", func(o *core.O) {
-		la := core.NewLockAnalysis(p, mapPkg)
-		acc := la.CheckGuards(nil, []core.GlobalGuard{
-			{Pkg: mapPkg, Var: "optionsCache", Lock: "cacheLock"},
-			{Pkg: mapPkg, Var: "structRequiredCache", Lock: "structCacheLock"},
-			{Pkg: mapPkg, Var: "cacheKeys", Lock: "cacheKeysLock"},
-			{Pkg: mapPkg, Var: "defaultCache", Lock: "defaultCacheLock"},
-		}, nil)
-		core.ReportAccesses(o, p, acc)
-		seen := map[string]bool{}
-		for _, a := range acc {
-			seen[a.What] = true
-		}
-		for _, v := range []string{"optionsCache", "structRequiredCache", "cacheKeys", "defaultCache"} {
-			if !seen[mapPkg+"."+v] {
-				o.Unres("cache variable %s.%s not found", mapPkg, v)
-			}
-		}
-		var fs []string
-		for f, m := range la.Imbalance {
-			fs = append(fs, p.Pos(f.Pos())+": "+core.FuncName(f)+": "+m)
-		}
-		sort.Strings(fs)
-		for _, m := range fs {
-			o.Fail("", "%s", m)
-		}
+	r.Check("D5/K4/caches-under-their-locks", "every package-level map of lib/mapping that is updated after package initialisation (the memo tables of parsed tags, implicitly required structs, key paths and parsed defaults - held in a package-level variable directly or in a map field of a struct a package-level variable holds) is read and updated only while one and the same mutex is held, updated only under its write lock; variable and mutex are inferred (the mutex held at most accesses, a package-level one or a sibling field of the map), not named; lock balance on every path", func(o *core.O) {
+		c05CacheLockRule(r, o)
 	})
 	// ------------------------------------------------------------------ D6 (beyond DESIGN)
 	r.Check("D6/K2/reflect-kind-established", "reflect.ValueOf(x).IsNil/Len/Cap/Index/MapKeys/MapIndex on an `any` parameter x of lib/mapping is reachable only when x's kind was established: inside the function (Kind()==K test, comma-ok/type-switch to a type of that kind) or at every in-package call site (same tests, a statically typed argument, or the caller's own parameter with the same requirement)", func(o *core.O) {
